@@ -1,8 +1,11 @@
 //! C04: rank/select answers match the bit-sequence definition in every implementation.
-//! M+S cells (Coq mechanism model): RankSelectSE512 (all four option combinations), RankSelectFewOne,
-//! RankSelectInterleaved256 (rank1/rank0/get).
-//! S-only cells: interleaved-256 (+ performance/bulk entry points), SE256, simple, few-zero, mixed (both
-//! dims), trivial, adaptive, multidim, BitVector::rank1/count_ones, bulk_*_simd.
+//! M+S cells (Coq mechanism model): RankSelectSE512 and RankSelectSE256 (all four option combinations),
+//! RankSelectInterleaved256 (rank/select/get, select cache on with several sample rates and off, the
+//! hardware/adaptive/optimized/bulk entry points), RankSelectSimple, RankSelectFewOne, RankSelectFewZero,
+//! BitVector (operation histories: push/pop/set/resize/ensure_set1/fast_ensure_set1/insert/clear/get/rank/count),
+//! RankSelectMixedIL256 (both dimensions), RankSelectAllZero/AllOne, AdaptiveRankSelect, MultiDimRankSelect<2> /
+//! AdaptiveMultiDimensional (forwarders onto interleaved-256).
+//! S-only cells: BitVector::rank1_bulk_simd, bulk_rank1_simd / bulk_select1_simd / bulk_popcount_simd.
 use crate::util::*;
 use serde_json::{json, Value};
 use zipora::succinct::rank_select::*;
@@ -11,13 +14,45 @@ use zipora::succinct::BitVector;
 const HEADER: &str = r#"From Coq Require Import List NArith ZArith Bool.
 Import ListNotations.
 From ZV.Common Require Import Run.
-From ZV.C04 Require Import Spec Model.
-Definition case_t : Type := list (bool * N) * bool * bool * list (N * N) * list Z.
-Definition ok (c : case_t) : bool :=
-  let '(runs, sp0, sp1, qs, expect) := c in eqb_lz (run_queries (expand runs) sp0 sp1 qs) expect.
+From ZV.C04 Require Import Spec Model ModelRun.
+Definition case_t : Type := c04case.
+Definition ok (c : case_t) : bool := case_ok c.
 "#;
 
-struct Ctx { sum: Summary, shards: CoqShards, budget: usize, all_queries: bool }
+struct Ctx { sum: Summary, shards: CoqShards, budget: usize, all_queries: bool,
+             // abort protection: FastVec bounds failures abort the process instead of panicking.  The run is executed in
+             // a worker child process that logs every case before touching the library; the parent only supervises:
+             // a case the worker died in is handed to the next worker as a recorded failure and skipped.
+             probe_log: Option<std::fs::File>, case_no: usize, skip: std::collections::HashSet<usize>, stop_at: usize }
+impl Ctx {
+    fn begin_case(&mut self, cj: &Value) -> bool {
+        self.case_no += 1;
+        if self.skip.contains(&self.case_no) || self.case_no >= self.stop_at { return false; }
+        if let Some(f) = self.probe_log.as_mut() {
+            use std::io::Write;
+            let _ = writeln!(f, "{}", json!({"n": self.case_no, "case": cj}));
+            let _ = f.flush();
+        }
+        true
+    }
+}
+
+/// Run this binary again as a worker child on `spec`, writing into the same output directory;
+/// returns (exited normally, last logged case).
+fn probe_child(args: &Args, spec: &Value) -> (bool, Option<Value>) {
+    let f = format!("{}/probe_spec.json", args.out);
+    std::fs::write(&f, spec.to_string()).ok();
+    std::fs::remove_file(format!("{}/probe.log", args.out)).ok();
+    let st = std::process::Command::new(std::env::current_exe().unwrap())
+        .args(["C04", "--seed", &args.seed.to_string(), "--tier", if args.thorough { "thorough" } else { "quick" }, "--out", &args.out, "--replay", &f])
+        .stdout(std::process::Stdio::null()).stderr(std::process::Stdio::null()).status();
+    let ok = matches!(st, Ok(s) if s.success());
+    let last = std::fs::read_to_string(format!("{}/probe.log", args.out)).ok()
+        .and_then(|t| t.lines().last().map(|l| l.to_string())).and_then(|l| serde_json::from_str::<Value>(&l).ok());
+    std::fs::remove_file(&f).ok();
+    std::fs::remove_file(format!("{}/probe.log", args.out)).ok();
+    (ok, last)
+}
 
 struct Oracle { bits: Vec<bool>, pre: Vec<usize>, ones: Vec<usize>, zeros: Vec<usize> }
 impl Oracle {
@@ -58,7 +93,11 @@ fn check_ops(rs: &dyn RankSelectOps, o: &Oracle, ps: &[usize], has_select0: bool
         if p < n { chk!(rs.get(p) == Some(o.bits[p]), "get({}) = {:?}", p, rs.get(p)); }
     }
     chk!(rs.get(n).is_none(), "get(len) not refused");
-    let ks: Vec<usize> = if o.ones.len() <= 1400 { (0..o.ones.len()).collect() } else { ps.iter().map(|&p| p % o.ones.len()).collect() };
+    // select on interleaved-256 with its select cache walks the bits from position 0 (O(len) per call): with every
+    // position of a 65536-bit vector as an index (thorough tier) one structure costs minutes; 4000 evenly spread
+    // indices plus the first and last ones keep the run inside its budget
+    let thin = |v: Vec<usize>| -> Vec<usize> { if v.len() <= 4000 { v } else { let st = v.len() / 4000 + 1; let l = v.len(); v.into_iter().enumerate().filter(|(i, _)| i % st == 0 || *i < 40 || *i + 40 >= l).map(|(_, k)| k).collect() } };
+    let ks: Vec<usize> = if o.ones.len() <= 1400 { (0..o.ones.len()).collect() } else { thin(ps.iter().map(|&p| p % o.ones.len()).collect()) };
     for &k in &ks {
         match rs.select1(k) {
             Ok(p) => { chk!(p == o.ones[k], "select1({}) = {} want {}", k, p, o.ones[k]); if p <= n { chk!(rs.rank1(p) == k || p != o.ones[k], "rank1(select1({})) != k", k); } }
@@ -68,7 +107,7 @@ fn check_ops(rs: &dyn RankSelectOps, o: &Oracle, ps: &[usize], has_select0: bool
     chk!(rs.select1(o.ones.len()).is_err(), "select1(ones) not refused: {:?}", rs.select1(o.ones.len()).ok());
     chk!(rs.select1(o.ones.len() + 1).is_err(), "select1(ones+1) not refused");
     if has_select0 {
-        let ks0: Vec<usize> = if o.zeros.len() <= 1400 { (0..o.zeros.len()).collect() } else { ps.iter().map(|&p| p % o.zeros.len()).collect() };
+        let ks0: Vec<usize> = if o.zeros.len() <= 1400 { (0..o.zeros.len()).collect() } else { thin(ps.iter().map(|&p| p % o.zeros.len()).collect()) };
         for &k in &ks0 {
             match rs.select0(k) {
                 Ok(p) => chk!(p == o.zeros[k], "select0({}) = {} want {}", k, p, o.zeros[k]),
@@ -108,6 +147,7 @@ fn one_vector(cx: &mut Ctx, bits: &[bool], mode: u32, r: &mut Rng, to_coq: bool)
     let runs = runs_of(bits);
     let shown: Vec<Value> = runs.iter().take(400).map(|(b, k)| json!([*b as u8, k])).collect();
     let cj = json!({"runs": runs.iter().map(|(b, k)| json!([*b as u8, k])).collect::<Vec<_>>(), "mode": mode});
+    if !cx.begin_case(&cj) { return; }
     let class: Option<&str> = None;
     let nontrivial = n >= 65 && !o.ones.is_empty() && !o.zeros.is_empty();
     let key = format!("{:?} {}", shown, mode);
@@ -124,6 +164,8 @@ fn one_vector(cx: &mut Ctx, bits: &[bool], mode: u32, r: &mut Rng, to_coq: bool)
         }};
     }
     cell!("interleaved256", true, RankSelectInterleaved256::new(make_bv(bits, mode)));
+    cell!("interleaved256/nocache", true, RankSelectInterleaved256::with_options(make_bv(bits, mode), false, 512));
+    cell!("interleaved256/rate", true, RankSelectInterleaved256::with_options(make_bv(bits, mode), true, [1usize, 3, 64, 100, 256][n % 5]));
     cell!("se256", true, RankSelectSE256::new(make_bv(bits, mode)));
     cell!("se256/nocache", true, RankSelectSE256::with_options(make_bv(bits, mode), false, false));
     cell!("se512", true, RankSelectSE512::new(make_bv(bits, mode)));
@@ -132,7 +174,7 @@ fn one_vector(cx: &mut Ctx, bits: &[bool], mode: u32, r: &mut Rng, to_coq: bool)
     cell!("few_one", true, RankSelectFewOne::from_bitvector(&make_bv(bits, mode)));
     cell!("few_zero", true, RankSelectFewZero::from_bitvector(&make_bv(bits, mode)));
     cell!("adaptive", true, AdaptiveRankSelect::new(make_bv(bits, mode)));
-    for c in ["interleaved256", "se256", "se256/nocache", "simple", "few_zero", "adaptive", "mixed/dim0", "mixed/dim1", "trivial", "bitvector", "interleaved256/perf", "bulk_simd", "multidim"] { cx.sum.cell_status(c, "S-only"); }
+    for c in ["bitvector/rank1_bulk_simd", "bulk_simd"] { cx.sum.cell_status(c, "S-only"); }
     // mixed: this vector as dim0 with a different dim1, and the other way round
     {
         let other: Vec<bool> = (0..(n / 2 + 3)).map(|i| i % 3 == 0).collect();
@@ -158,6 +200,34 @@ fn one_vector(cx: &mut Ctx, bits: &[bool], mode: u32, r: &mut Rng, to_coq: bool)
     }
     if o.ones.is_empty() { cell!("trivial", true, Ok::<_, zipora::ZiporaError>(RankSelectAllZero::new(n))); }
     if o.zeros.is_empty() { cell!("trivial", true, Ok::<_, zipora::ZiporaError>(RankSelectAllOne::new(n))); }
+    // multi-dimensional wrappers: this vector and its negation as the two dimensions
+    {
+        let name = "multidim";
+        cx.sum.eval(name, &key, nontrivial);
+        let neg: Vec<bool> = bits.iter().map(|b| !b).collect();
+        let res = guarded(|| {
+            let mut bad: Vec<String> = vec![];
+            let md = MultiDimRankSelect::<2>::new(vec![make_bv(bits, mode), make_bv(&neg, 0)]).map_err(|e| format!("{:?}", e))?;
+            for &p in &ps {
+                let got = md.bulk_rank_multidim(&[p, p]);
+                if got != [o.pre[p], p - o.pre[p]] && bad.len() < 3 { bad.push(format!("bulk_rank_multidim([{p}, {p}]) = {:?} want [{}, {}]", got, o.pre[p], p - o.pre[p])); }
+            }
+            let (no, nz) = (o.ones.len(), o.zeros.len());
+            for k in 0..no.min(300) { if nz > 0 {
+                let got = md.bulk_select_multidim(&[k, k % nz]).ok();
+                if got != Some([o.ones[k], o.zeros[k % nz]]) && bad.len() < 3 { bad.push(format!("bulk_select_multidim([{}, {}]) = {:?}", k, k % nz, got)); } } }
+            if md.bulk_select_multidim(&[no, 0]).is_ok() { bad.push("bulk_select_multidim([ones, 0]) not refused".into()); }
+            if md.bulk_select_multidim(&[0, nz]).is_ok() { bad.push("bulk_select_multidim([0, zeros]) not refused".into()); }
+            let amd = AdaptiveMultiDimensional::new_dual(make_bv(bits, mode), make_bv(&neg, 0)).map_err(|e| format!("{:?}", e))?;
+            bad.extend(check_ops(&amd, &o, &ps, true));
+            Ok::<_, String>(bad)
+        });
+        match res {
+            Err(p) => cx.sum.fail(name, class, cj.clone(), &format!("panicked: {}", p)),
+            Ok(Err(e)) => cx.sum.fail(name, class, cj.clone(), &format!("construction refused: {}", e)),
+            Ok(Ok(bad)) => if !bad.is_empty() { cx.sum.fail(name, class, cj.clone(), &bad.join("; ")); }
+        }
+    }
     // the bit vector's own rank, and the accelerated / bulk entry points
     {
         let name = "bitvector";
@@ -168,8 +238,17 @@ fn one_vector(cx: &mut Ctx, bits: &[bool], mode: u32, r: &mut Rng, to_coq: bool)
             if bv.count_ones() != o.ones.len() { bad.push(format!("count_ones {} want {}", bv.count_ones(), o.ones.len())); }
             for &p in &ps { if bv.rank1(p) != o.pre[p] && bad.len() < 3 { bad.push(format!("rank1({}) = {} want {}", p, bv.rank1(p), o.pre[p])); }
                             if bv.rank0(p) != p - o.pre[p] && bad.len() < 3 { bad.push(format!("rank0({})", p)); } }
+            bad
+        });
+        match res { Err(p) => cx.sum.fail(name, class, cj.clone(), &format!("panicked: {}", p)),
+                    Ok(bad) => if !bad.is_empty() { cx.sum.fail(name, class, cj.clone(), &bad.join("; ")); } }
+        let name = "bitvector/rank1_bulk_simd";
+        cx.sum.eval(name, &key, nontrivial);
+        let res = guarded(|| {
+            let bv = make_bv(bits, mode);
+            let mut bad = vec![];
             let bulk = bv.rank1_bulk_simd(&ps);
-            if bulk != ps.iter().map(|&p| o.pre[p]).collect::<Vec<_>>() { bad.push("rank1_bulk_simd".into()); }
+            if bulk != ps.iter().map(|&p| o.pre[p]).collect::<Vec<_>>() { bad.push("rank1_bulk_simd".to_string()); }
             bad
         });
         match res { Err(p) => cx.sum.fail(name, class, cj.clone(), &format!("panicked: {}", p)),
@@ -220,22 +299,73 @@ fn one_vector(cx: &mut Ctx, bits: &[bool], mode: u32, r: &mut Rng, to_coq: bool)
                     Ok(bad) => if !bad.is_empty() { cx.sum.fail(name, None, cj.clone(), &bad.join("; ")); } }
     }
     // --- Coq model comparison for SE512 (4 option combos) and FewOne
-    if to_coq && mode == 0 && n <= 2600 && cx.shards.len() < cx.budget {
+    if to_coq && (mode == 0 || mode == 2) && n <= 2600 && cx.shards.len() < cx.budget {
         let combo = (r.below(2) == 1, r.below(2) == 1);
+        let rate = *r.pick(&[1usize, 3, 64, 100, 256, 512, 512]);
+        // the other dimension of the mixed structure: shorter, equal, longer (extra all-zero lines), a line longer
+        let olen = match r.below(5) { 0 => 0, 1 => n / 2 + 3, 2 => n, 3 => n + 1, _ => n + 300 };
+        // storage words beyond ceil(len/64): a vector that was popped keeps its (zeroed) blocks
+        let extra = make_bv(bits, mode).blocks().len() - (n + 63) / 64;
         let res = guarded(|| {
-            let rs = RankSelectSE512::with_options(make_bv(bits, 0), combo.0, combo.1).unwrap();
-            let fw = RankSelectFewOne::from_bitvector(&make_bv(bits, 0)).unwrap();
-            let il = RankSelectInterleaved256::new(make_bv(bits, 0)).unwrap();
+            let rs = RankSelectSE512::with_options(make_bv(bits, mode), combo.0, combo.1).unwrap();
+            let fw = RankSelectFewOne::from_bitvector(&make_bv(bits, mode)).unwrap();
+            let il = RankSelectInterleaved256::new(make_bv(bits, mode)).unwrap();
+            let ila = RankSelectInterleaved256::with_options(make_bv(bits, mode), true, rate).unwrap();
+            let ilb = RankSelectInterleaved256::with_options(make_bv(bits, mode), false, rate).unwrap();
+            let s2 = RankSelectSE256::with_options(make_bv(bits, mode), combo.0, combo.1).unwrap();
+            let sm = RankSelectSimple::new(make_bv(bits, mode)).unwrap();
+            let fz = RankSelectFewZero::from_bitvector(&make_bv(bits, mode)).unwrap();
+            let ad = AdaptiveRankSelect::new(make_bv(bits, mode)).unwrap();
+            let other: Vec<bool> = (0..olen).map(|i| i % 3 == 0).collect();
+            let mx0 = RankSelectMixedIL256::new(make_bv(bits, mode), make_bv(&other, 0)).unwrap();
+            let mx1 = RankSelectMixedIL256::new(make_bv(&other, 0), make_bv(bits, mode)).unwrap();
+            let (d0, d1) = (mx0.dim0(), mx1.dim1());
+            let az = RankSelectAllZero::new(n); let ao = RankSelectAllOne::new(n);
+            let neg: Vec<bool> = bits.iter().map(|b| !b).collect();
+            let md = MultiDimRankSelect::<2>::new(vec![make_bv(bits, mode), make_bv(&neg, 0)]).unwrap();
             let mut qs: Vec<(u32, usize)> = vec![];
             let mut sample: Vec<usize> = vec![0, n, n / 2];
             for b in [63usize, 64, 65, 511, 512, 513, 1023, 1024, 1025] { if b <= n { sample.push(b); } }
             for _ in 0..6 { sample.push(Rng::new(n as u64 + qs.len() as u64).below(n as u64 + 1) as usize); }
             for b in [255usize, 256, 257] { if b <= n { sample.push(b); } }
             for &p in &sample { qs.push((0, p)); qs.push((1, p)); qs.push((5, p)); qs.push((8, p)); qs.push((9, p)); qs.push((10, p)); if p < n { qs.push((4, p)); qs.push((7, p)); } }
+            sample.sort(); sample.dedup();
+            for &p in &sample {
+                for op in [20u32, 21, 30, 31, 40, 41, 45] { qs.push((op, p)); }
+                if p < n { for op in [24u32, 34, 44] { qs.push((op, p)); } }
+            }
+            for op in [24u32, 34, 44, 64, 73, 78] { qs.push((op, n)); }
+            for &p in &sample {
+                for op in [60u32, 61, 70, 71, 75, 76, 92, 93] { qs.push((op, p)); }
+                if p < n { for op in [64u32, 73, 78] { qs.push((op, p)); } }
+            }
+            qs.push((60, n + 9)); qs.push((61, n + 9)); qs.push((92, n + 1)); qs.push((93, n + 1));
+            for op in [65u32, 74, 79] { qs.push((op, 0)); }
+            if o.ones.is_empty() { for &p in &sample { qs.push((80, p)); qs.push((81, p)); qs.push((82, p)); qs.push((83, p)); qs.push((84, p)); } qs.push((83, n)); qs.push((84, n)); qs.push((85, 0)); }
+            if o.zeros.is_empty() { for &p in &sample { qs.push((86, p)); qs.push((87, p)); qs.push((88, p)); qs.push((89, p)); qs.push((90, p)); } qs.push((88, n)); qs.push((90, n)); qs.push((91, 0)); }
+            for op in 50u32..=55 { qs.push((op, 0)); }
+            for &p in &[0usize, n / 3, n, n + 5] { for op in 56u32..=59 { qs.push((op, p)); } }
             qs.push((8, n + 1)); qs.push((9, n + 77)); qs.push((8, n + 300));
             let no = o.ones.len(); let nz = o.zeros.len();
             for k in [0usize, 1, no / 2, no.saturating_sub(1), no, no + 1] { qs.push((2, k)); qs.push((6, k)); }
             for k in [0usize, 1, nz / 2, nz.saturating_sub(1), nz] { qs.push((3, k)); }
+            // interleaved-256 select: cache on (sampled hints + linear search), cache off (binary search + in-line scan),
+            // select0, and the entry points that forward to select1_cache_optimized
+            let mut ks1: Vec<usize> = vec![0, 1, no / 2, no.saturating_sub(1), no, no + 1, rate.saturating_sub(1), rate, 2 * rate];
+            for _ in 0..3 { ks1.push(Rng::new((n + no + ks1.len()) as u64).below(no as u64 + 1) as usize); }
+            // the ones just before / at / after every 256-bit line boundary
+            for b in [256usize, 512, 768, 1024, 2048] { if b <= n { let q = o.pre[b]; ks1.push(q.saturating_sub(1)); ks1.push(q); } }
+            ks1.sort(); ks1.dedup();
+            for &k in &ks1 { qs.push((11, k)); qs.push((13, k)); qs.push((22, k)); qs.push((32, k)); qs.push((42, k)); qs.push((72, k)); qs.push((77, k)); }
+            // the forwarders onto the (linear-search) cached select of interleaved-256: a few indices are enough
+            for (i, &k) in ks1.iter().enumerate() { if i % 4 == 0 || k + 1 >= no { qs.push((62, k)); qs.push((94, k)); } }
+            let mut ks0: Vec<usize> = vec![0, 1, nz / 2, nz.saturating_sub(1), nz, nz + 1];
+            for _ in 0..3 { ks0.push(Rng::new((n + nz + ks0.len()) as u64).below(nz as u64 + 1) as usize); }
+            for b in [256usize, 512, 768, 1024, 2048] { if b <= n { let q = b - o.pre[b]; ks0.push(q.saturating_sub(1)); ks0.push(q); } }
+            ks0.sort(); ks0.dedup();
+            for &k in &ks0 { qs.push((12, k)); qs.push((23, k)); qs.push((33, k)); qs.push((43, k)); qs.push((46, k)); qs.push((63, k)); }
+            for (i, &k) in ks0.iter().enumerate() { if i % 4 == 0 || k + 1 >= nz { qs.push((95, k)); } }
+            for k in [0usize, no / 3, no.saturating_sub(1), no] { qs.push((14, k)); qs.push((15, k)); qs.push((16, k)); qs.push((17, k)); qs.push((18, k)); }
             qs.push((4, n));
             let ans: Vec<i128> = qs.iter().map(|&(op, a)| match op {
                 0 => rs.rank1(a) as i128, 1 => rs.rank0(a) as i128,
@@ -243,14 +373,185 @@ fn one_vector(cx: &mut Ctx, bits: &[bool], mode: u32, r: &mut Rng, to_coq: bool)
                 4 => rs.get(a).map(|b| b as i128).unwrap_or(-1),
                 5 => fw.rank1(a) as i128, 6 => fw.select1(a).map(|x| x as i128).unwrap_or(-1),
                 8 => il.rank1(a) as i128, 9 => il.rank0(a) as i128, 10 => il.get(a).map(|b| b as i128).unwrap_or(-1),
+                11 => ila.select1(a).map(|x| x as i128).unwrap_or(-1), 12 => ila.select0(a).map(|x| x as i128).unwrap_or(-1),
+                13 => ilb.select1(a).map(|x| x as i128).unwrap_or(-1),
+                14 => ila.select1_hardware_accelerated(a).map(|x| x as i128).unwrap_or(-1),
+                15 => ila.select1_adaptive(a).map(|x| x as i128).unwrap_or(-1),
+                16 => ilb.select1_optimized(a).map(|x| x as i128).unwrap_or(-1),
+                17 => ila.select1_bulk(&[a]).map(|v| v[0] as i128).unwrap_or(-1),
+                18 => ilb.select1_bulk_optimized(&[0, a]).map(|v| v[1] as i128).unwrap_or(-1),
+                20 => s2.rank1(a) as i128, 21 => s2.rank0(a) as i128,
+                22 => s2.select1(a).map(|x| x as i128).unwrap_or(-1), 23 => s2.select0(a).map(|x| x as i128).unwrap_or(-1),
+                24 => s2.get(a).map(|b| b as i128).unwrap_or(-1),
+                30 => sm.rank1(a) as i128, 31 => sm.rank0(a) as i128,
+                32 => sm.select1(a).map(|x| x as i128).unwrap_or(-1), 33 => sm.select0(a).map(|x| x as i128).unwrap_or(-1),
+                34 => sm.get(a).map(|b| b as i128).unwrap_or(-1),
+                40 => fz.rank1(a) as i128, 41 => fz.rank0(a) as i128,
+                42 => fz.select1(a).map(|x| x as i128).unwrap_or(-1), 43 => fz.select0(a).map(|x| x as i128).unwrap_or(-1),
+                44 => fz.get(a).map(|b| b as i128).unwrap_or(-1),
+                45 => fw.rank0(a) as i128, 46 => fw.select0(a).map(|x| x as i128).unwrap_or(-1),
+                50 => rs.count_ones() as i128, 51 => s2.count_ones() as i128, 52 => sm.count_ones() as i128,
+                53 => fz.count_ones() as i128, 54 => fw.count_ones() as i128, 55 => il.count_ones() as i128,
+                56 => il.rank1_hardware_accelerated(a) as i128, 57 => il.rank1_adaptive(a) as i128,
+                58 => il.rank1_optimized(a) as i128, 59 => il.rank1_bulk(&[a])[0] as i128,
+                60 => ad.rank1(a) as i128, 61 => ad.rank0(a) as i128,
+                62 => ad.select1(a).map(|x| x as i128).unwrap_or(-1), 63 => ad.select0(a).map(|x| x as i128).unwrap_or(-1),
+                64 => ad.get(a).map(|b| b as i128).unwrap_or(-1), 65 => ad.count_ones() as i128,
+                70 => d0.rank1(a) as i128, 71 => d0.rank0(a) as i128, 72 => d0.select1(a).map(|x| x as i128).unwrap_or(-1),
+                73 => d0.get(a).map(|b| b as i128).unwrap_or(-1), 74 => d0.count_ones() as i128,
+                75 => d1.rank1(a) as i128, 76 => d1.rank0(a) as i128, 77 => d1.select1(a).map(|x| x as i128).unwrap_or(-1),
+                78 => d1.get(a).map(|b| b as i128).unwrap_or(-1), 79 => d1.count_ones() as i128,
+                80 => az.rank1(a) as i128, 81 => az.rank0(a) as i128, 82 => az.select1(a).map(|x| x as i128).unwrap_or(-1),
+                83 => az.select0(a).map(|x| x as i128).unwrap_or(-1), 84 => az.get(a).map(|b| b as i128).unwrap_or(-1), 85 => az.count_ones() as i128,
+                86 => ao.rank1(a) as i128, 87 => ao.rank0(a) as i128, 88 => ao.select1(a).map(|x| x as i128).unwrap_or(-1),
+                89 => ao.select0(a).map(|x| x as i128).unwrap_or(-1), 90 => ao.get(a).map(|b| b as i128).unwrap_or(-1), 91 => ao.count_ones() as i128,
+                92 => md.bulk_rank_multidim(&[a, a])[0] as i128, 93 => md.bulk_rank_multidim(&[a, a])[1] as i128,
+                94 => md.bulk_select_multidim(&[a, 0]).map(|v| v[0] as i128).unwrap_or(-1),
+                95 => md.bulk_select_multidim(&[0, a]).map(|v| v[1] as i128).unwrap_or(-1),
                 _ => fw.get(a).map(|b| b as i128).unwrap_or(-1) }).collect();
             (qs, ans)
         });
         if let Ok((qs, ans)) = res {
             let runs_coq: Vec<String> = runs.iter().map(|(b, k)| format!("({}, {}%N)", coq_bool(*b), k)).collect();
             let qs_coq: Vec<String> = qs.iter().map(|(op, a)| format!("({}%N, {}%N)", op, a)).collect();
-            let term = format!("([{}], {}, {}, [{}], {})", runs_coq.join("; "), coq_bool(combo.0), coq_bool(combo.1), qs_coq.join("; "), coq_z_list(ans.iter().cloned()));
-            cx.shards.push(term, json!({"runs": cj["runs"], "mode": 0, "speed_select": [combo.0, combo.1]}));
+            let term = format!("RS [{}] {} {} {}%N {}%N {}%N [{}] {}", runs_coq.join("; "), coq_bool(combo.0), coq_bool(combo.1), rate, olen, extra, qs_coq.join("; "), coq_z_list(ans.iter().cloned()));
+            cx.shards.push(term, json!({"runs": cj["runs"], "mode": mode, "speed_select": [combo.0, combo.1], "il_sample_rate": rate, "mixed_other_len": olen, "extra_words": extra}));
+        }
+    }
+}
+
+
+// ---------------------------------------------------------------------------------------------
+// BitVector operation histories: the vector's own observations against a Vec<bool>, the structures built from
+// the resulting vector (they popcount whole storage words, so bits past the end must be zero), and the Coq
+// state-machine model (observations, final blocks(), final len()).
+// op codes: 0 push(b) 1 pop 2 set(i,b) 3 resize(n,b) 4 ensure_set1(i) 5 fast_ensure_set1(i) 6 insert(i,b) 7 clear
+//           8 get(i) 9 rank1(p) 10 rank0(p) 11 count_ones 12 len
+type BvOp = (u32, usize, bool);
+
+fn bv_apply(bv: &mut BitVector, op: BvOp) -> i128 {
+    let (c, a, b) = op;
+    fn r(x: zipora::Result<()>) -> i128 { if x.is_ok() { 0 } else { -1 } }
+    match c {
+        0 => r(bv.push(b)),
+        1 => bv.pop().map(|x| x as i128).unwrap_or(-1),
+        2 => r(bv.set(a, b)),
+        3 => r(bv.resize(a, b)),
+        4 => r(bv.ensure_set1(a)),
+        5 => r(bv.fast_ensure_set1(a)),
+        6 => r(bv.insert(a, b)),
+        7 => { bv.clear(); 0 }
+        8 => bv.get(a).map(|x| x as i128).unwrap_or(-1),
+        9 => bv.rank1(a) as i128,
+        10 => bv.rank0(a) as i128,
+        11 => bv.count_ones() as i128,
+        _ => bv.len() as i128,
+    }
+}
+
+fn ref_apply(l: &mut Vec<bool>, op: BvOp) -> i128 {
+    let (c, a, b) = op;
+    match c {
+        0 => { l.push(b); 0 }
+        1 => l.pop().map(|x| x as i128).unwrap_or(-1),
+        2 => if a < l.len() { l[a] = b; 0 } else { -1 },
+        3 => { l.resize(a, b); 0 }
+        4 | 5 => { if a >= l.len() { l.resize(a + 1, false); } l[a] = true; 0 }
+        6 => if a <= l.len() { l.insert(a, b); 0 } else { -1 },
+        7 => { l.clear(); 0 }
+        8 => l.get(a).map(|x| *x as i128).unwrap_or(-1),
+        9 => l.iter().take(a).filter(|x| **x).count() as i128,
+        10 => l.iter().take(a).filter(|x| !**x).count() as i128,
+        11 => l.iter().filter(|x| **x).count() as i128,
+        _ => l.len() as i128,
+    }
+}
+
+fn bv_gen_ops(r: &mut Rng) -> (bool, usize, bool, Vec<BvOp>) {
+    let use_init = r.chance(1, 2);
+    let init_size = *r.pick(&[0usize, 1, 63, 64, 65, 127, 128, 129, 255, 256, 257, 511, 512, 513, 1000]);
+    let init_val = r.chance(1, 2);
+    let mut len = if use_init { init_size } else { 0 };
+    let mut ops: Vec<BvOp> = vec![];
+    let nops = 15 + r.below(70) as usize;
+    while ops.len() < nops {
+        let near = |r: &mut Rng, len: usize| -> usize {
+            match r.below(8) { 0 => 0, 1 => len, 2 => len + 1, 3 => len.saturating_sub(1), 4 => (len / 64) * 64, 5 => (len / 64) * 64 + 64,
+                               6 => len + *r.pick(&[2usize, 63, 64, 65, 200]), _ => r.below(len as u64 + 1) as usize } };
+        match r.below(100) {
+            0..=27 => { let burst = if r.chance(1, 4) { 1 + r.below(70) as usize } else { 1 }; let dense = r.chance(1, 2);
+                        for _ in 0..burst { ops.push((0, 0, if dense { !r.chance(1, 8) } else { r.chance(1, 2) })); len += 1; } }
+            28..=35 => { let k = if r.chance(1, 5) { 1 + r.below(70) as usize } else { 1 }; for _ in 0..k { ops.push((1, 0, false)); len = len.saturating_sub(1); } }
+            36..=43 => { let i = near(r, len); ops.push((2, i, r.chance(1, 2))); }
+            44..=50 => { let n = { let x = near(r, len); if r.chance(1, 6) { *r.pick(&[0usize, 63, 64, 65, 128, 700]) } else { x } }; ops.push((3, n, r.chance(1, 2))); len = n; }
+            51..=57 => { let i = near(r, len); ops.push((4, i, false)); if i >= len { len = i + 1; } }
+            58..=62 => { let i = near(r, len); ops.push((5, i, false)); if i >= len { len = i + 1; } }
+            63..=64 => { if len < 300 { let i = near(r, len); ops.push((6, i, r.chance(1, 2))); if i <= len { len += 1; } } }
+            65 => { ops.push((7, 0, false)); len = 0; }
+            66..=73 => { let i = near(r, len); ops.push((8, i, false)); }
+            74..=86 => { let i = near(r, len); ops.push((9, i, false)); }
+            87..=91 => { let i = near(r, len); ops.push((10, i, false)); }
+            92..=96 => ops.push((11, 0, false)),
+            _ => ops.push((12, 0, false)),
+        }
+        if len > 2600 { ops.push((3, 100, false)); len = 100; }
+    }
+    ops.push((11, 0, false)); ops.push((12, 0, false)); ops.push((9, len, false));
+    (use_init, init_size, init_val, ops)
+}
+
+fn bv_history(cx: &mut Ctx, use_init: bool, init_size: usize, init_val: bool, ops: &[BvOp], to_coq: bool) {
+    let name = "bitvector";
+    let cj = json!({"cell": "bitvector/history", "init": {"use": use_init, "size": init_size, "val": init_val},
+                    "ops": ops.iter().map(|(c, a, b)| json!([c, a, *b as u8])).collect::<Vec<_>>()});
+    if !cx.begin_case(&cj) { return; }
+    let key = format!("{:?} {} {} {:?}", use_init, init_size, init_val, ops);
+    let crosses = ops.iter().filter(|o| o.0 <= 7).count() >= 5;
+    cx.sum.eval(name, &key, crosses);
+    let res = guarded(|| {
+        let mut bad: Vec<String> = vec![];
+        let mut bv = if use_init { BitVector::with_size(init_size, init_val).unwrap() } else { BitVector::new() };
+        let mut l: Vec<bool> = if use_init { vec![init_val; init_size] } else { vec![] };
+        let mut obs: Vec<i128> = vec![];
+        for (k, &op) in ops.iter().enumerate() {
+            let got = bv_apply(&mut bv, op);
+            let want = ref_apply(&mut l, op);
+            if got != want && bad.len() < 3 { bad.push(format!("op #{} {:?}: got {} want {}", k, op, got, want)); }
+            obs.push(got);
+        }
+        // the final vector, bit by bit, and its own rank at every position
+        if bv.len() != l.len() { bad.push(format!("len {} want {}", bv.len(), l.len())); }
+        let o = Oracle::new(&l);
+        if bv.count_ones() != o.ones.len() { bad.push(format!("count_ones {} want {}", bv.count_ones(), o.ones.len())); }
+        for p in 0..=l.len() {
+            if p < l.len() && bv.get(p) != Some(l[p]) && bad.len() < 4 { bad.push(format!("get({})", p)); }
+            if bv.rank1(p) != o.pre[p] && bad.len() < 4 { bad.push(format!("rank1({}) = {} want {}", p, bv.rank1(p), o.pre[p])); }
+        }
+        // structures built from this vector count whole storage words: stale bits past the end would show here
+        let ps: Vec<usize> = (0..=l.len()).collect();
+        let blocks: Vec<u64> = bv.blocks().to_vec();
+        let flen = bv.len();
+        if bad.is_empty() {
+            for (nm, b) in [("interleaved256", RankSelectInterleaved256::new(bv.clone()).map(|x| check_ops(&x, &o, &ps, true))),
+                            ("se256", RankSelectSE256::new(bv.clone()).map(|x| check_ops(&x, &o, &ps, true))),
+                            ("se512", RankSelectSE512::new(bv.clone()).map(|x| check_ops(&x, &o, &ps, true))),
+                            ("simple", RankSelectSimple::new(bv.clone()).map(|x| check_ops(&x, &o, &ps, true)))] {
+                match b { Ok(v) => for e in v.into_iter().take(2) { bad.push(format!("{} built from the vector: {}", nm, e)); },
+                          Err(e) => bad.push(format!("{} construction refused: {:?}", nm, e)) }
+            }
+        }
+        (bad, obs, blocks, flen)
+    });
+    match res {
+        Err(p) => cx.sum.fail(name, None, cj.clone(), &format!("panicked: {}", p)),
+        Ok((bad, obs, blocks, flen)) => {
+            if !bad.is_empty() { cx.sum.fail(name, None, cj.clone(), &bad.join("; ")); }
+            if to_coq && cx.shards.len() < cx.budget {
+                let ops_coq: Vec<String> = ops.iter().map(|(c, a, b)| format!("({}%N, {}%N, {}%N)", c, a, *b as u8)).collect();
+                let term = format!("BV {}%N {} {} [{}] {} {} {}%N", init_size, coq_bool(init_val), coq_bool(use_init), ops_coq.join("; "),
+                                   coq_z_list(obs.iter().cloned()), coq_n_list(blocks.iter().map(|&w| w as u128)), flen);
+                cx.shards.push(term, cj.clone());
+            }
         }
     }
 }
@@ -275,6 +576,12 @@ fn gen_bits(r: &mut Rng, thorough: bool) -> Vec<bool> {
 }
 
 fn run_one(cx: &mut Ctx, c: &Value) {
+    if c.get("cell").and_then(|x| x.as_str()) == Some("bitvector/history") {
+        let ops: Vec<BvOp> = c["ops"].as_array().map(|a| a.iter().map(|o| (o[0].as_u64().unwrap_or(12) as u32, o[1].as_u64().unwrap_or(0) as usize, o[2].as_u64().unwrap_or(0) == 1)).collect()).unwrap_or_default();
+        let init = &c["init"];
+        bv_history(cx, init["use"].as_bool().unwrap_or(false), init["size"].as_u64().unwrap_or(0) as usize, init["val"].as_bool().unwrap_or(false), &ops, true);
+        return;
+    }
     let mut bits = vec![];
     for rn in c["runs"].as_array().unwrap() { for _ in 0..rn[1].as_u64().unwrap() { bits.push(rn[0].as_u64().unwrap() == 1); } }
     let mode = c["mode"].as_u64().unwrap_or(0) as u32;
@@ -284,15 +591,68 @@ fn run_one(cx: &mut Ctx, c: &Value) {
 
 pub fn run(args: &Args) {
     let mut cx = Ctx {
-        sum: Summary::new("C04", "all bit strings of length <= 10 (quick) / 12 (thorough); generated vectors at lengths around 64/256/512/2048/65536 boundaries with densities all-0, all-1, single bit at a boundary, 1/1000, 1/2, 7/8, 999/1000, long runs; bit vectors built by push, by over-push + resize-down, by over-push + pop, by with_size(false) + set, by with_size(true) + clear, by growing with resize(n, true); four vectors with runs of 8200..20032 ones at 8192-bit boundaries; every position for rank0/rank1/get and every k (plus ones, ones+1) for select0/select1 when len <= 1400, boundary + random sample otherwise; non-trivial = length >= 65 with both bit values present"),
+        sum: Summary::new("C04", "all bit strings of length <= 10 (quick) / 12 (thorough); generated vectors at lengths around 64/256/512/2048/65536 boundaries with densities all-0, all-1, single bit at a boundary, 1/1000, 1/2, 7/8, 999/1000, long runs; bit vectors built by push, by over-push + resize-down, by over-push + pop, by with_size(false) + set, by with_size(true) + clear, by growing with resize(n, true); four vectors with runs of 8200..20032 ones at 8192-bit boundaries; every position for rank0/rank1/get and every k (plus ones, ones+1) for select0/select1 when len <= 1400, boundary + random sample otherwise; non-trivial = length >= 65 with both bit values present; BitVector operation histories (15..85 steps from new or with_size(n, v) at block-boundary sizes: push bursts, pop bursts, set, resize, ensure_set1, fast_ensure_set1, insert, clear, get, rank1, rank0, count_ones, len at and around len and the 64-bit block edges) compared step by step with a Vec<bool>, then every position of the final vector and the structures built from it; non-trivial history = at least 5 mutations"),
         shards: CoqShards::new(HEADER, 40),
-        budget: if args.thorough { 4000 } else { 480 },
+        budget: if args.thorough { 6000 } else { 600 },
         all_queries: args.thorough,
+        probe_log: None, case_no: 0, skip: Default::default(), stop_at: usize::MAX,
     };
     let mut rng = Rng::new(args.seed);
+    let mut replay_case: Option<Value> = None;
+    let mut is_child = false;
     if let Some(f) = &args.replay {
         let v: Value = serde_json::from_str(&std::fs::read_to_string(f).expect("replay file")).expect("json");
-        let c = if v.get("case").is_some() { v["case"].clone() } else { v };
+        if v.get("probe").and_then(|x| x.as_bool()) == Some(true) {
+            // worker mode: every case is logged before it runs
+            is_child = true;
+            unsafe { libc::prctl(libc::PR_SET_PDEATHSIG, libc::SIGKILL); }
+            cx.probe_log = std::fs::File::create(format!("{}/probe.log", args.out)).ok();
+            if let Some(a) = v["skip"].as_array() { for x in a { cx.skip.insert(x.as_u64().unwrap_or(0) as usize); } }
+            if let Some(n) = v["stop_at"].as_u64() { cx.stop_at = n as usize; }
+            if let Some(a) = v["aborted"].as_array() {
+                for c in a {
+                    let cell = if c.get("cell").is_some() { "bitvector" } else { "process" };
+                    cx.sum.eval(cell, &format!("abort {}", c), true);
+                    cx.sum.fail(cell, None, c.clone(), "the process aborted (bounds failure / abort inside the library) while running this case");
+                }
+            }
+            if !v["case"].is_null() { replay_case = Some(v["case"].clone()); }
+        } else {
+            replay_case = Some(if v.get("case").is_some() { v["case"].clone() } else { v });
+        }
+    }
+    if !is_child {
+        // supervisor: the worker writes summary.json and the shards; rerun it past every case it aborts in
+        let mut skip: Vec<usize> = vec![];
+        let mut aborted: Vec<Value> = vec![];
+        let mut stop_at: Option<usize> = None;
+        for round in 0..8 {
+            let spec = json!({"probe": true, "skip": skip, "aborted": aborted, "stop_at": stop_at, "case": replay_case.clone().unwrap_or(Value::Null)});
+            let (ok, last) = probe_child(args, &spec);
+            if ok { return; }
+            match last {
+                Some(l) => {
+                    let n = l["n"].as_u64().unwrap_or(0) as usize;
+                    if n == 0 || skip.contains(&n) { break; }
+                    skip.push(n);
+                    if aborted.len() < 4 { aborted.push(l["case"].clone()); }
+                    // many cases abort: from the fifth one on, only the cases before it are run
+                    if round >= 4 { stop_at = Some(n); }
+                }
+                None => break,
+            }
+        }
+        // the worker never got through: report what was seen
+        for c in aborted {
+            let cell = if c.get("cell").is_some() { "bitvector" } else { "process" };
+            cx.sum.eval(cell, &format!("abort {}", c), true);
+            cx.sum.fail(cell, None, c, "the process aborted (bounds failure / abort inside the library) while running this case");
+        }
+        let sh = cx.shards.write(&args.out);
+        cx.sum.write(&args.out, sh);
+        return;
+    }
+    if let Some(c) = replay_case {
         run_one(&mut cx, &c);
         let sh = cx.shards.write(&args.out);
         cx.sum.write(&args.out, sh);
@@ -334,6 +694,14 @@ pub fn run(args: &Args) {
         let mut r2 = rng.clone();
         one_vector(&mut cx, &bits, mode, &mut r2, true);
         rng.next();
+    }
+    // BitVector operation histories
+    let nhist = if args.thorough { 4000 } else { 400 };
+    for i in 0..nhist {
+        let (u, n, v, ops) = bv_gen_ops(&mut rng);
+        if i < 2 { cx.sum.sample(json!({"bitvector_history": {"with_size": u, "size": n, "val": v, "ops": ops.len(), "first_ops": ops.iter().take(8).map(|(c, a, b)| json!([c, a, *b as u8])).collect::<Vec<_>>()}})); }
+        cx.sum.dist("bitvector_histories");
+        bv_history(&mut cx, u, n, v, &ops, i % 2 == 0 || args.thorough);
     }
     cx.sum.dist_max("coq_cases", cx.shards.len() as u64);
     let sh = cx.shards.write(&args.out);
